@@ -54,6 +54,11 @@ T = {
  "C14w2-m2": ("C14", "cache hit of a sliced entry comes back unsliced (remove_ind on a discarded copy): needs slicing_opts + a hit", ["C14"]),
  "C16w2-m1": ("C16", "hash_method='b' numbers the output as term N: an open network and the closed network made by appending the output as a term share a fingerprint", ["C14", "C16"]),
  "C16w2-m2": ("C16", "overwrite='improved' resumes the thread's last sub-optimizer: sequence X, Y, X with Y cheaper returns Y's tree for X", ["C16", "C14"]),
+ "C03w2-m1": ("C03", "restore of a PROJECTED index divides the multiplicity (same site as C04-m2, found again independently)", ["C03", "C04"]),
+ "C03w2-m2": ("C03", "annealing helper undercounts a hyper index held >=2 times by the second operand (same site as C04-m1)", ["C03", "C04", "C18"]),
+ "C06w2-m1": ("C06", "projected index recorded with its full size: slice numbering wrong when slicing and projection are combined (same site as C02-m2)", ["C06"]),
+ "C06w2-m2": ("C06", "gather_slices early exit on nchunks==1: a sliced size-1 / projected OUTPUT index loses its length-1 axis", ["C06"]),
+ "own-C05-agglom-loop": ("C05", "OWN mutation (not from a sub-agent): reverts fix 8767055 - build_agglom never returns on networks with scalars/disconnected parts; shows the CPU-time guard reporting non-returning calls", ["C05"]),
 }
 for name, (prop, needs, caught) in sorted(T.items()):
     d = os.path.join(S, name)
@@ -66,7 +71,8 @@ for name, (prop, needs, caught) in sorted(T.items()):
     meta = {
         "name": name, "breaks_property": prop,
         "needs_to_manifest": needs,
-        "produced_by": "independent sub-agent given only the property text and a scratch worktree",
+        "produced_by": ("own mutation" if name.startswith("own-") else
+                        "independent sub-agent given only the property text and a scratch worktree"),
         "confirmed": conf or "pending (tools/confirm_seed.sh)",
         "what_was_run": ["tools/confirm_seed.sh %s  (scratch worktree: demo passes clean / fails patched; full test-suite with patch)" % name] +
                         ["tools/run_seed.sh %s %s  (patch applied to /repo, quick check, reverted)" % (name, c) for c in caught],
